@@ -10,6 +10,10 @@
 (*   lang    TRUE iff every config file also carries a per-language override *)
 (*           of the option for the probe's language                          *)
 (*   spelling of the section name in every file: "hyphen" | "underscore"     *)
+(*   companion  "none" | "before" | "after": a file of ANOTHER language is   *)
+(*           linted in the same run before / after the probe, and (with      *)
+(*           lang) every config file carries a per-language override for     *)
+(*           that language too, holding id + 20                              *)
 (* Each carrier holds a distinct value id so that the winner is observable:  *)
 (*   yaml 1, json 2, pyproject 3, --config 4, command line 5, default 0;     *)
 (*   the per-language override of a file holds id + 10.                      *)
@@ -23,24 +27,28 @@ EXTENDS Naturals, FiniteSets, TLC, Json
 
 CONSTANTS LookupKind,        \* "both" | "underscoreOnly" | "hyphenOnly": which spellings the rule looks up
           SectionHasHyphen,  \* TRUE iff the documented section name contains a hyphen
-          CliReachesLang     \* TRUE iff the command-line option also overrides language overrides
+          CliReachesLang,    \* TRUE iff the command-line option also overrides language overrides
+          ConfigKeyedByLanguage  \* TRUE: the parsed section is looked up per file language (as coded);
+                                 \* FALSE: one parsed object per section is reused for the whole run
 
 Files == {"yaml", "json", "pyproject"}
 Id(c) == CASE c = "yaml" -> 1 [] c = "json" -> 2 [] c = "pyproject" -> 3
 
-VARIABLES files, dash, cli, lang, spelling, done
-vars == <<files, dash, cli, lang, spelling, done>>
+VARIABLES files, dash, cli, lang, spelling, companion, done
+vars == <<files, dash, cli, lang, spelling, companion, done>>
 
-Init == files = {} /\ dash = "none" /\ cli = FALSE /\ lang = FALSE /\ spelling = "hyphen" /\ done = FALSE
-AddFile(c)   == ~done /\ c \notin files /\ files' = files \cup {c} /\ UNCHANGED <<dash, cli, lang, spelling, done>>
-SetDash(d)   == ~done /\ dash = "none" /\ dash' = d /\ UNCHANGED <<files, cli, lang, spelling, done>>
-SetCli       == ~done /\ ~cli /\ cli' = TRUE /\ UNCHANGED <<files, dash, lang, spelling, done>>
-SetLang      == ~done /\ ~lang /\ lang' = TRUE /\ UNCHANGED <<files, dash, cli, spelling, done>>
+Init == files = {} /\ dash = "none" /\ cli = FALSE /\ lang = FALSE /\ spelling = "hyphen" /\ companion = "none" /\ done = FALSE
+AddFile(c)   == ~done /\ c \notin files /\ files' = files \cup {c} /\ UNCHANGED <<dash, cli, lang, spelling, companion, done>>
+SetDash(d)   == ~done /\ dash = "none" /\ dash' = d /\ UNCHANGED <<files, cli, lang, spelling, companion, done>>
+SetCli       == ~done /\ ~cli /\ cli' = TRUE /\ UNCHANGED <<files, dash, lang, spelling, companion, done>>
+SetLang      == ~done /\ ~lang /\ lang' = TRUE /\ UNCHANGED <<files, dash, cli, spelling, companion, done>>
 Underscore   == ~done /\ spelling = "hyphen" /\ SectionHasHyphen /\ spelling' = "underscore"
-                /\ UNCHANGED <<files, dash, cli, lang, done>>
-Finish       == ~done /\ done' = TRUE /\ UNCHANGED <<files, dash, cli, lang, spelling>>
+                /\ UNCHANGED <<files, dash, cli, lang, companion, done>>
+SetCompanion(k) == ~done /\ lang /\ companion = "none" /\ companion' = k
+                   /\ UNCHANGED <<files, dash, cli, lang, spelling, done>>
+Finish       == ~done /\ done' = TRUE /\ UNCHANGED <<files, dash, cli, lang, spelling, companion>>
 Next == (\E c \in Files : AddFile(c)) \/ (\E d \in {"yaml", "json"} : SetDash(d)) \/ SetCli \/ SetLang
-        \/ Underscore \/ Finish
+        \/ Underscore \/ (\E k \in {"before", "after"} : SetCompanion(k)) \/ Finish
 Spec == Init /\ [][Next]_vars
 
 \* ---- layer A ----------------------------------------------------------------------------------
@@ -58,18 +66,23 @@ Discovered == Winner                                   \* same file-level order 
 KeyAfterLoad == IF SectionHasHyphen THEN "underscore" ELSE "plain"
 Found == \/ ~SectionHasHyphen
          \/ LookupKind \in {"both", "underscoreOnly"}  \* hyphenOnly never finds the normalised key
+\* the language whose override the rule reads for the probe: its own, or - when one parsed object per section is kept
+\* for the run - that of the first file linted
+LangOffsetB == IF ~lang THEN 0 ELSE IF ~ConfigKeyedByLanguage /\ companion = "before" THEN 20 ELSE 10
 FileValueB == IF Discovered = 0 \/ ~Found THEN 0
-              ELSE IF lang THEN Discovered + 10 ELSE Discovered
-EffectiveB == IF cli THEN (IF lang /\ ~CliReachesLang /\ Discovered # 0 /\ Found THEN Discovered + 10 ELSE 5)
+              ELSE Discovered + LangOffsetB
+EffectiveB == IF cli THEN (IF lang /\ ~CliReachesLang /\ Discovered # 0 /\ Found THEN Discovered + LangOffsetB ELSE 5)
               ELSE FileValueB
 
 BEqualsA == done => EffectiveB = EffectiveA
 SpellingIrrelevant == done => TRUE   \* EffectiveA has no `spelling` argument: by construction
 CliWins == (done /\ cli) => EffectiveA = 5
+\* what else is linted in the same run never matters (EffectiveA has no `companion` argument: by construction)
 DashReplacesDiscovery == (done /\ dash # "none" /\ ~cli) => EffectiveA \in {4, 14}
 
 SetToSeq3 == <<"yaml" \in files, "json" \in files, "pyproject" \in files>>
 Emit == done => PrintT(<<"CASE", ToJson([yaml |-> "yaml" \in files, json |-> "json" \in files,
                                           pyproject |-> "pyproject" \in files, dash |-> dash, cli |-> cli,
-                                          lang |-> lang, spelling |-> spelling, effective |-> EffectiveA])>>)
+                                          lang |-> lang, spelling |-> spelling, companion |-> companion,
+                                          effective |-> EffectiveA])>>)
 =============================================================================
